@@ -237,3 +237,16 @@ PROPS["C15"]["extra"] = procdrive.c15_extra
 PROPS["C15"]["need_engine"] = True
 PROPS["C16"]["extra"] = procdrive.c16_extra
 PROPS["C16"]["need_engine"] = True
+
+PROPS["C12"] = {
+    "module": "RCE.Props.C12",
+    "theorems": ["RCE.Props.C12.tt_mate_sound_partial", "RCE.Props.C12.mate_score_sound_partial", "RCE.Props.C12.statements_refuted"],
+    "streams": {"quick": [S("search-mate", "mate", 128, 4)], "thorough": [S("search-mate", "mate", 3200, 5), SK_T]},
+    "eval_key": "cases", "distinct_key": "distinct_cases",
+    "rule": SEARCH_RULE + "; for C12: positions WITHOUT history and with a small half-move clock are mined by brute force (sparse random positions and random play from the seeds) so that a third has a mate in one, "
+            "a third a forced mate in two, a third an avoidable mate-in-one threat; each is searched to depth 3 and 4 from an empty cache and again after earlier completed searches of the same position at the other "
+            "depths 1..4 in a random order (cache kept); after every completed search of depth >= 3 the chosen move is judged by a mate solver over the rules spec (the mined witness is re-verified on the spec first): "
+            "mate in one must be played, a forced mate must be kept (shortest, or any within three more moves), an avoidable mate in one must not be allowed",
+    "assumptions": ["KeyMate: positions with equal 64-bit keys agree on forced mates", "the completeness clauses are decided by the oracle run, not by a theorem (path-dependent mate distances)",
+                    "the soundness theorems need NoMateInOne at the root and StrictScores for the initial cache: without them the statement is FALSE (kernel-checked counter-examples, see DESIGN.md D9)"],
+}
